@@ -8,6 +8,12 @@ that every worker's IntPool is refilled (more than 1024 matches per instance) wh
 slices are still referenced by batches in flight, with 1 and with several workers, and (thorough
 tier) under the race detector.
 
+Round 4c: the same file is also given to `rare filter -m REGEX [-I]` where REGEX is the pattern read as
+the regular expression `lit0(?P<f1>.*?)lit1...` (skipped tokens `(?:.*?)`, a token without trailing
+literal `(.*)`): whenever bytes and runes agree (literals are valid UTF-8 here; with -I the literals
+must be ASCII) the two matchers must print the same lines ("replicates logic from regex";
+`dissect_eq_regexp_model` in Props/C12.lean is the statement about the two models).
+
 Oracle: an independent re-statement of the property text in Python (`bytes.find` = first
 occurrence; `bytes.lower` = ASCII-only fold): for every line the CLI must print exactly
 `{line}@@{0}@@{name}...` of the specification's match, and nothing for unmatched lines.
@@ -77,6 +83,44 @@ def gen_pattern(r):
     return pre, toks, names
 
 
+def quote_meta(b):
+    """regexp.QuoteMeta"""
+    out = bytearray()
+    for c in b:
+        if c in b"\\.+*?()|[]{}^$":
+            out.append(92)
+        out.append(c)
+    return bytes(out)
+
+
+def to_regex(pre, toks):
+    """the regular expression a dissect pattern stands for (see harness/corr/c12d.go)"""
+    out = b"(?s)" + quote_meta(pre)
+    for key, lit in toks:
+        body = b".*?" if lit else b".*"
+        if key == b"" or key.startswith(b"?"):
+            out += b"(?:" + body + b")"
+        else:
+            out += b"(?P<" + key + b">" + body + b")"
+        out += quote_meta(lit)
+    return out
+
+
+def parse_out(stdout):
+    """{line number: rest} of `{line}@@...` output lines, or a violation key"""
+    got = {}
+    for out in stdout.split(b"\n")[:-1]:
+        no, _, rest = out.partition(b"@@")
+        try:
+            no = int(no)
+        except ValueError:
+            return None, ("cli-unparsable-output", out)
+        if no in got:
+            return None, ("cli-line-printed-twice", out)
+        got[no] = rest
+    return got, None
+
+
 def render(pre, toks):
     return pre + b"".join(b"%{" + k + b"}" + lit for k, lit in toks)
 
@@ -118,6 +162,39 @@ def gen_line(r, pre, toks, ic):
     return s.replace(b"@@", b"@")
 
 
+def wiring(exe, work, viol):
+    """the four arms of BuildMatcherFromArguments (Model/C12Rx.lean `buildMatcher`,
+    `matcher_wiring_matches_source`): -d and -m together are refused, -d takes -I as CompileEx's ignoreCase,
+    -m takes -I as a "(?i)" prefix, neither flag = every line matches; compile errors end the run with rc 2"""
+    path = os.path.join(work, "cli_wire.txt")
+    with open(path, "wb") as f:
+        f.write(b"k=1;x\nzzz\nK=2;y\n")
+    both = b"1@@k=1;@@1\n3@@K=2;@@2\n"
+    cases = [
+        ([b"-d", b"k=%{v};", b"-m", b"k=(.*?);"], 2, b"", b"match and dissect conflict"),
+        ([b"-d", b"k=%{v};"], 0, b"1@@k=1;@@1\n", b""),
+        ([b"-d", b"k=%{v};", b"-I"], 0, both, b""),
+        ([b"-I", b"-d", b"K=%{v};"], 0, both, b""),
+        ([b"-m", b"k=(?P<v>.*?);"], 0, b"1@@k=1;@@1\n", b""),
+        ([b"-m", b"k=(?P<v>.*?);", b"-I"], 0, both, b""),
+        ([b"-d", b"q=%{v};"], 1, b"", b""),
+        ([], 0, b"1@@k=1;x@@<NAME>\n2@@zzz@@<NAME>\n3@@K=2;y@@<NAME>\n", b""),
+        ([b"-d", b"%{a}%{b}"], 2, b"", b"sequential token"),
+        ([b"-d", b"%{a"], 2, b"", b"unclosed token"),
+        ([b"-d", b"%{a} %{a}"], 2, b"", b"conflict"),
+    ]
+    n = 0
+    for args, rc, out, errtext in cases:
+        cmd = [exe.encode(), b"filter"] + args + [b"-e", b"{line}@@{0}@@{v}", b"-w", b"1", path.encode()]
+        p = subprocess.run(cmd, stdout=subprocess.PIPE, stderr=subprocess.PIPE, timeout=60)
+        n += 1
+        if p.returncode != rc or p.stdout != out or errtext.lower() not in p.stderr.lower():
+            viol("cli-matcher-wiring", args=b" ".join(args).decode(), rc=p.returncode, want_rc=rc,
+                 stdout=p.stdout.decode("utf-8", "replace")[:300], want_stdout=out.decode(),
+                 stderr=p.stderr.decode("utf-8", "replace")[-300:])
+    return n
+
+
 def run(ctx):
     work = ctx["work"]
     os.makedirs(work, exist_ok=True)
@@ -135,6 +212,8 @@ def run(ctx):
     def viol(key, **kw):
         if len(violations) < 5:
             violations.append(dict(kw, key=key))
+
+    runs += wiring(exe, work, viol)
 
     for pi in range(n_pat):
         pre, toks, names = gen_pattern(r)
@@ -154,6 +233,28 @@ def run(ctx):
             stats["matched"] += len(want)
             stats["max_matches_one_run"] = max(stats["max_matches_one_run"], len(want))
             expr = b"{line}@@{0}" + b"".join(b"@@{" + n + b"}" for n in names)
+            ascii_lits = all(c < 0x80 for c in pre + b"".join(l for _, l in toks))
+            if not ic or ascii_lits:
+                # the regex matcher of `--match` on the pattern's regular expression prints the same lines
+                cmd = [exe.encode(), b"filter", b"-m", to_regex(pre, toks)] + ([b"-I"] if ic else []) + \
+                      [b"-e", expr, b"-w", b"2", b"--batch", b"64", path.encode()]
+                p = subprocess.run(cmd, stdout=subprocess.PIPE, stderr=subprocess.PIPE, timeout=600)
+                runs += 1
+                stats["regex_runs"] = stats.get("regex_runs", 0) + 1
+                info = dict(pattern=pat.hex(), regex=to_regex(pre, toks).hex(), ignore_case=ic)
+                if p.returncode not in (0, 1):
+                    viol("cli-regex-exit", rc=p.returncode, stderr=p.stderr.decode("utf-8", "replace")[-500:], **info)
+                else:
+                    got, err = parse_out(p.stdout)
+                    if err:
+                        viol("cli-regex-" + err[0], line=err[1].hex(), **info)
+                    else:
+                        for no in sorted(set(want) | set(got)):
+                            if want.get(no) != got.get(no):
+                                viol("cli-regex-differs-from-dissect-spec", line_no=no, line=lines[no - 1].hex(),
+                                     spec=(want[no].hex() if no in want else None),
+                                     regex_cli=(got[no].hex() if no in got else None), **info)
+                                break
             for exe_path, kind in exes:
                 for workers in ((1, 4) if kind == "plain" else (4,)):
                     cmd = [exe_path.encode(), b"filter", b"-d", pat] + ([b"-I"] if ic else []) + \
